@@ -74,6 +74,8 @@ PROPS["C15"] = engine_prop("C15", ["proofs/AnchorsSitesCtx.v"], "C15",
 EVAL_MODEL = ["gen/CmpGen.v", "gen/ArithGen.v", "gen/OpsGen.v", "gen/EngineGen.v"]
 PROPS["C01"] = dict(proof_files=EVAL_MODEL, props_files=[], harness="C01", theorems=[], trusted=ENGINE_TRUST, assumptions=ENGINE_ASSUME, explanation="(in progress)")
 PROPS["C02"] = dict(proof_files=EVAL_MODEL, props_files=[], harness="C02", theorems=[], trusted=ENGINE_TRUST, assumptions=ENGINE_ASSUME, explanation="(in progress)")
+for _p in ["C04", "C05", "C07", "C08", "C13", "C14"]:
+    PROPS[_p] = dict(proof_files=EVAL_MODEL, props_files=[], harness=_p, theorems=[], trusted=ENGINE_TRUST, assumptions=ENGINE_ASSUME, explanation="(in progress)")
 
 NOT_APPLICABLE = {}
 
